@@ -52,7 +52,7 @@ PROPS = {
         "constants": ["MAX_BUCKET_SIZE", "MAX_BUCKETS", "INFO_HASH_LEN", "MAX_LAST_SEEN_MINS", "MAX_REFRESH_REQUESTS"],
         "trusted": COMMON_TRUST + ["router set fixed before the first offer"],
         "assumptions": ["router set fixed before the first offer (as within one bootstrap attempt)"],
-        "level_note": "shape invariant proved for all op sequences incl. splits; trade/admission/rejection proved per offer at bucket level and at table level for offers that do not split; that split_bucket re-adds every live node is NOT proved in Lean and is decided by the tie (check_trade on the real table across splits)",
+        "level_note": "shape invariant proved for all op sequences incl. splits; trade/admission/rejection proved per offer at bucket level and, for every table satisfying the invariant, at table level across any number of splits: split_bucket re-adds every live node and touches no other bucket (C08_split_lossless), at most one victim of strictly lower standing from a bucket of 8 live nodes (C08_table_trade), admission unless the final unsplittable bucket holds 8 live nodes none ranking below the newcomer (C08_table_admit), filtered offers change nothing (C08_offer_filtered)",
     },
     "C09": {
         "engines": [{"name": "table", "quick": 40, "thorough": 600, "oracle_tag": "C09",
